@@ -60,6 +60,8 @@ def join_first_line(kind, prio, ws) -> str:
 @st.composite
 def step(draw, allow_page_ops=True, allow_paths=True, allow_break=True):
     k = draw(st.integers(0, 42 if allow_break else 39))
+    if allow_page_ops and draw(st.integers(0, 14)) == 0:
+        return {"op": "restore_page", "n": draw(st.integers(0, 50))}
     sel = {"p": draw(st.integers(0, 50)), "n": draw(st.integers(0, 50))}
     if k == 40 or k == 41:
         return {"op": "break_page", **sel}
@@ -106,6 +108,7 @@ class Workdir:
         self.zdir = zdir
         self.fresh = 0
         self.skipped = 0
+        self.graveyard = {}  # relative path -> bytes of pages that were deleted / renamed away
 
     def pages(self) -> list:
         return sorted(str(p.relative_to(self.zdir)) for p in self.zdir.rglob("*.zo")
@@ -150,6 +153,15 @@ class Workdir:
         if op == "fix_pages":
             f = self.fix_pages()
             return f"fix_pages {f}" if f else None
+        if op == "restore_page":
+            # a page that was deleted / renamed away comes back, byte-identical, under its old name
+            cands = sorted(r for r in self.graveyard if not (self.zdir / r).exists())
+            if not cands:
+                return None
+            rel = cands[st_["n"] % len(cands)]
+            (self.zdir / rel).parent.mkdir(parents=True, exist_ok=True)
+            (self.zdir / rel).write_bytes(self.graveyard.pop(rel))
+            return f"restore_page {rel}"
         if op == "break_page":
             if not pages:
                 return None
@@ -180,12 +192,14 @@ class Workdir:
         if op == "del_page":
             if len(pages) <= 1:
                 return None
+            self.graveyard[rel] = (self.zdir / rel).read_bytes()
             (self.zdir / rel).unlink()
             return f"del_page {rel}"
         if op == "rename_page":
             self.fresh += 1
             new = ("sub/" if st_.get("sub") else "") + f"ren{self.fresh}.zo"
             (self.zdir / new).parent.mkdir(parents=True, exist_ok=True)
+            self.graveyard[rel] = (self.zdir / rel).read_bytes()
             os.rename(self.zdir / rel, self.zdir / new)
             return f"rename_page {rel} -> {new}"
         lines = self.read(rel)
